@@ -6,6 +6,9 @@
 //! from the missing output line.
 mod common;
 mod fam_ans;
+mod fam_leaky;
+mod fam_diag;
+mod fam_floatq;
 mod fam_huff;
 mod fam_backend;
 mod fam_ansb;
@@ -20,6 +23,9 @@ fn run_case(family: &str, input: &[Int]) -> Vec<Int> {
     let mut out = Vec::new();
     match family {
         "ans" => fam_ans::run(&mut r, &mut out),
+        "leaky" => fam_leaky::run(&mut r, &mut out),
+        "diag" => fam_diag::run(&mut r, &mut out),
+        "floatq" => fam_floatq::run(&mut r, &mut out),
         "huff" => fam_huff::run(&mut r, &mut out),
         "backend" => fam_backend::run(&mut r, &mut out),
         "ansb" => fam_ansb::run(&mut r, &mut out),
